@@ -87,6 +87,12 @@ package media
 //@ extern func atomic.AddInt32(addr *int32, delta int32) (n int32)
 //@   modifies *addr
 //@   ensures *addr == old(*addr) + delta && n == *addr
+//@ extern func (mu *sync.Mutex) Lock() ()
+//@   modifies held(mu)
+//@   ensures held(mu)
+//@ extern func (mu *sync.Mutex) Unlock() ()
+//@   modifies held(mu)
+//@   ensures !held(mu)
 //@ extern func (v *atomic.Value) Load() (x interface{})
 //@   modifies
 //@ extern func (v *atomic.Value) Store(x interface{}) ()
